@@ -461,6 +461,32 @@ fn monitor(ctx: &Ctx, cj: &dyn Fn() -> Value) {
             ctx.violation(name, "monitor/identical-streams-in-fresh-threads", String::new(), cj());
         }
     }
+    // scalars drawn by several threads at the same time must all be different (a shared generator updated without
+    // holding its lock across the draw hands the same state to two threads)
+    {
+        let per = 400usize;
+        let all: Vec<Vec<(BigUint, BigUint)>> = std::thread::scope(|s| {
+            let hs: Vec<_> = (0..8)
+                .map(|_| {
+                    s.spawn(move || {
+                        let range = to_limbs(&(sm9::params().n.clone() - 1u32));
+                        (0..per).map(|_| (from_limbs(&gm_sm2::verif::random_u256()), from_limbs(&gm_sm9::u256::sm9_random_u256(&range)))).collect::<Vec<_>>()
+                    })
+                })
+                .collect();
+            hs.into_iter().map(|h| h.join().unwrap_or_default()).collect()
+        });
+        ctx.calls((16 * per) as u64);
+        for (idx, name) in ["sm2.random_u256", "sm9.sm9_random_u256"].iter().enumerate() {
+            let mut v: Vec<BigUint> = all.iter().flatten().map(|p| if idx == 0 { p.0.clone() } else { p.1.clone() }).collect();
+            let total = v.len();
+            v.sort();
+            v.dedup();
+            if v.len() != total {
+                ctx.violation(name, "monitor/duplicate-scalars-across-concurrent-threads", format!("{} duplicates among {} scalars drawn by 8 threads at once", total - v.len(), total), cj());
+            }
+        }
+    }
     // two fresh processes must not produce the same stream either (a process-wide generator with a fixed seed
     // passes the thread comparison above)
     let run = || -> Option<String> {
@@ -618,7 +644,7 @@ pub fn run(ctx: &Arc<Ctx>) {
     // ---- monitor
     let before = ctx.violations().len();
     eval(ctx, &Case::Monitor);
-    ctx.cov("monitor", json!({"kind": "statistical monitor, not model checking", "draws_per_sampler": 4096, "checks": ["no duplicates", "in range", "bits 0..=250 within 8 sigma", "fresh threads give different streams", "fresh processes give different streams"], "violations": ctx.violations().len() - before}));
+    ctx.cov("monitor", json!({"kind": "statistical monitor, not model checking", "draws_per_sampler": 4096, "checks": ["no duplicates", "in range", "bits 0..=250 within 8 sigma", "fresh threads give different streams", "8 concurrent threads draw pairwise different scalars", "fresh processes give different streams"], "violations": ctx.violations().len() - before}));
     ctx.assume("'every bit position is unbiased' and 'seeded from the operating system' are statements about a distribution; bounded enumeration cannot decide them. They are only monitored (coverage.structural.monitor).");
     let _ = gdbg::<u8>;
 }
